@@ -69,6 +69,22 @@ claim("C06", "static analysis: guard dominance (dead/running tests before every 
       "Decides that a dead or running coroutine cannot be resumed, that every way an error leaves a coroutine kills it and restores the resumer as current thread (plain and wrapped arms agree), that only the yield site keeps a coroutine alive, and that status derives its answers from Dead/CurrentThread/Parent in that order. It does not decide payload transfer or register offsets.",
       BASE, "DESIGN.md §3 C06")
 
+claim("C08", "static analysis: producer/consumer exhaustiveness over the AST sum types (types.Implements vs type-switch cases, grammar composite literals vs compiler switches), panic-operand typing on the load path (static-call closure from Compile, package parse), loop-exit analysis of every scanner loop by partial evaluation of its exit conditions at end of input (constant propagation of EOF = -1 through pure predicates)",
+      "Decides that no AST shape the grammar can produce lacks a compile case (which is what makes the compiler's sentinel panics unreachable), that everything that can be thrown on the load path is converted into an error value, and that no scanner loop can spin at end of input. It does not decide run-time index/nil panics inside compile.go, termination of the generated LALR driver, or that every Lua 5.1 text is accepted.",
+      BASE + "The goyacc-generated driver terminates on every token sequence.", "DESIGN.md §3 C08")
+claim("C10", "static analysis: forwarding-shape check (each object-level API method is a single call of the VM's own helper with parameters in order and fixed constants; the matching handler calls the same helper), guard analysis by path conditions for every register access derived from an API index (>= frame base for negative, < top for positive indices)",
+      "Decides that the Go API's object operations are the VM's operations by construction and that Get/Replace/Pop/SetTop/Remove/indexToReg cannot reach registers below the current frame's base. It does not decide the NRet contract or result selection of calls.",
+      BASE, "DESIGN.md §3 C10")
+claim("C17", "static analysis: syntax-tree query over the grammar actions and compile.go (every node composite literal has SetLine — and SetLastLine for block-carrying kinds — called on the same access path), who-may-read ownership of the scanner's byte reader, pairing / must-pass-through of EnterBlock, LeaveBlock and EndScope on the pruned SSA CFG, index-expression shape of the line lookup",
+      "Decides that every AST node is positioned, that every input byte passes the line counter, that scopes are opened and closed in pairs with pc ranges recorded, and that positions are read at Pc-1 of the frame's own prototype. It does not decide which line each instruction receives.",
+      BASE, "DESIGN.md §3 C17")
+claim("C18", "static analysis (narrow): exact SSA shape of lValueArraySorter.Swap/Len/Less (pure exchange, operands of the comparator), delegation table of the table library to the LTable list helpers with argument positions; shares R09-route",
+      "Decides only that sort can only permute the table's own array and calls the comparator with exactly the two elements compared, and that the library functions reach the list through the list helpers with the documented argument positions. List operations themselves (shifting, ranges, ordering) are run-time quantities and are not decided.",
+      BASE + "package sort only rearranges through Swap.", "DESIGN.md §3 C18")
+claim("C20", "static analysis: guard dominance and must-pass-through in require (cache test before every loader call, sentinel stored after the search and before the module call, sentinel test raises, every path after the module call caches a value), order of the searcher list, same-object checks for the published tables, key-constant checks for preload registration",
+      "Decides the ordering skeleton of require and of the package tables. It does not decide at-most-once loading under arbitrary histories or error texts.",
+      BASE, "DESIGN.md §3 C20")
+
 for pid in ["C%02d" % i for i in range(2, 21)]:
     if pid not in P:
         na(pid, "check not built yet in this session (planned rules: DESIGN.md §3 %s); not claimed until its rules run clean" % pid)
